@@ -61,7 +61,20 @@ fn observe(rec: &mut Rec, g: &Global, tr: &Triple, clients: usize, rng: &mut Cha
   let mut keys: Vec<Vec<u8>> = Vec::new();
   let mut shares: Vec<Share> = Vec::new();
   for c in 0..clients {
-    let mg = MessageGenerator::new(SingleMeasurement::new(m), t, e);
+    // `x` is a public field: some generators were built for ANOTHER measurement,
+    // used, and then re-targeted
+    let mg = if c % 3 == 2 {
+      let mut other = m.clone();
+      other.push(0x99);
+      let mut g0 = MessageGenerator::new(SingleMeasurement::new(&other), t, e);
+      let mut tmp = [0u8; 32];
+      g0.sample_local_randomness(&mut tmp);
+      let _ = g0.share_with_local_randomness();
+      g0.x = SingleMeasurement::new(m);
+      g0
+    } else {
+      MessageGenerator::new(SingleMeasurement::new(m), t, e)
+    };
     let mut rnd = [0u8; 32];
     mg.sample_local_randomness(&mut rnd);
     rec.ev("sample_local_randomness");
@@ -200,7 +213,7 @@ fn observe(rec: &mut Rec, g: &Global, tr: &Triple, clients: usize, rng: &mut Cha
 /// enumerated neighbour families around a base triple
 fn neighbours(rng: &mut ChaCha20Rng, idx: u64) -> Vec<Triple> {
   let mut out: Vec<Triple> = Vec::new();
-  match idx % 9 {
+  match idx % 10 {
     0 => {
       // every split point of a fixed concatenation m||e (incl. empty components)
       let cat = rand_bytes_in(rng, 0..13);
@@ -303,6 +316,34 @@ fn neighbours(rng: &mut ChaCha20Rng, idx: u64) -> Vec<Triple> {
       e.extend_from_slice(&digits);
       out.push((m.clone(), e, 0));
     }
+    8 => {
+      // x || sep || y || sep || z cut at each separator: (x, y sep z) vs (x sep y, z), for
+      // the separators a joined cache key or a text protocol would use
+      let sep = *pick(rng, &[b'|', b',', b':', b'/', b';', b' ', b'\n', 0u8, b'-', b'_', b'.']);
+      let ascii = |rng: &mut ChaCha20Rng| -> Vec<u8> { (0..rng.gen_range(1..6)).map(|_| rng.gen_range(b'a'..=b'z')).collect() };
+      let (x, y, z) = (ascii(rng), ascii(rng), ascii(rng));
+      let t = rng.gen_range(1..5);
+      let j = |parts: &[&Vec<u8>]| -> Vec<u8> {
+        let mut v = Vec::new();
+        for (i, p) in parts.iter().enumerate() {
+          if i > 0 {
+            v.push(sep);
+          }
+          v.extend_from_slice(p);
+        }
+        v
+      };
+      out.push((j(&[&x, &y]), z.clone(), t));
+      out.push((x.clone(), j(&[&y, &z]), t));
+      out.push((j(&[&x, &y, &z]), vec![], t));
+      out.push((vec![], j(&[&x, &y, &z]), t));
+      let mut xs = x.clone();
+      xs.push(sep);
+      out.push((xs, j(&[&y, &z]), t));
+      let mut sy = vec![sep];
+      sy.extend_from_slice(&y);
+      out.push((x.clone(), j(&[&sy, &z]), t));
+    }
     7 => {
       // components exchanged through their encodings: (m, LE(a), b) vs (m, LE(b), a),
       // also big-endian and with the measurement taking part
@@ -357,7 +398,7 @@ fn neighbours(rng: &mut ChaCha20Rng, idx: u64) -> Vec<Triple> {
 
 fn family(rec: &mut Rec, _ctx: &Ctx, idx: u64, rng: &mut ChaCha20Rng, g: &Global) {
   let trs = neighbours(rng, idx);
-  rec.case(&("family", idx % 9, trs.len()));
+  rec.case(&("family", idx % 10, trs.len()));
   for tr in &trs {
     // dealing costs O(t): above 1024 only the randomness is observed
     let deal = tr.2 >= 1 && tr.2 <= 1024 && (tr.2 <= 8 || idx % 40 == 2);
@@ -365,8 +406,8 @@ fn family(rec: &mut Rec, _ctx: &Ctx, idx: u64, rng: &mut ChaCha20Rng, g: &Global
     rec.case(&(tr.0.clone(), tr.1.clone(), tr.2));
     observe(rec, g, tr, clients, rng, deal, idx % 5 == 0);
   }
-  if idx < 9 {
-    rec.sample(json!({"family": idx % 9, "triples": trs.iter().take(5).map(tj).collect::<Vec<_>>() }));
+  if idx < 10 {
+    rec.sample(json!({"family": idx % 10, "triples": trs.iter().take(5).map(tj).collect::<Vec<_>>() }));
   }
 }
 
